@@ -98,8 +98,8 @@ pub struct Case {
 
 #[derive(Debug)]
 pub enum Out {
-    /// violated and rejected (what violated)
-    Rejected { cons: usize, gates: usize },
+    /// violated and rejected (what violated; `single` names the kind when exactly one thing is violated)
+    Rejected { cons: usize, gates: usize, single: Option<&'static str> },
     /// the perturbation left everything satisfied: don't-care for C02
     Trivial,
     /// prover returned an error: no proof emitted
@@ -154,7 +154,25 @@ pub fn run_case<G: Cv>(env: &Env<G>, c: &Case, seed: u64) -> Out {
         return Out::Trivial;
     }
     match vr.result {
-        Err(_) => Out::Rejected { cons: vc.len(), gates: vg.len() },
+        Err(_) => {
+            let single = if vc.len() + vg.len() == 1 {
+                if vg.len() == 1 {
+                    Some("gate")
+                } else if rc.k_index.contains(&vc[0]) {
+                    Some("explicit constraint")
+                } else {
+                    // implicit rows of multiply: `operand - wire`, left then right
+                    let last = rc.cons[vc[0]].last().map(|t| t.0);
+                    match last {
+                        Some(ark_bulletproofs::r1cs::Variable::MultiplierLeft(_)) => Some("implicit left row of multiply"),
+                        _ => Some("implicit right row of multiply"),
+                    }
+                }
+            } else {
+                None
+            };
+            Out::Rejected { cons: vc.len(), gates: vg.len(), single }
+        }
         Ok(()) => Out::Bad {
             expected: format!("verify returns Err (violated constraints {:?}, violated gates {:?})", vc, vg),
             observed: "verify returned Ok".into(),
@@ -246,7 +264,10 @@ pub fn main(o: &Opts) -> i32 {
             };
             match r {
                 None => skipped += 1,
-                Some(Out::Rejected { cons, gates }) => {
+                Some(Out::Rejected { cons, gates, single }) => {
+                    if let Some(k) = single {
+                        rep.count(&format!("rejected with exactly one violated item: {}", k), 1);
+                    }
                     rep.evaluations += 1;
                     rep.nontrivial += 1;
                     rep.count(&format!("rejected/{}", kind), 1);
